@@ -83,21 +83,19 @@ public:
 
   Iterator find(const T& key) const
   {
+    Item* candidate = 0;
     for(Item* item = root; item; )
     {
       if(key > item->key)
-      {
         item = item->right;
-        continue;
-      }
-      else if(key < item->key)
-      {
-        item = item->left;
-        continue;
-      }
       else
-        return item;
+      {
+        candidate = item;
+        item = item->left;
+      }
     }
+    if(candidate && !(key < candidate->key))
+      return candidate;
     return _end;
   }
 
@@ -109,7 +107,7 @@ public:
     if(it == _end)
       return 0;
     usize count = 1;
-    for(Item* item = it.item->next; item && item->key == key; item = item->next)
+    for(Item* item = it.item->next; item != &endItem && item->key == key; item = item->next)
       ++count;
     return count;
   }
